@@ -123,12 +123,17 @@ def run(ck):
             in_handler.add(id(e))
     ok = len(trys) == 1 and all(id(e) not in in_handler for lst in calls.values() for e in lst)
     ck.ob("C03-R4", "onInput/protected-region", ok, f.loc, f, "feed, parse and onRequest are inside the single try block")
+    summ = lib.Summaries(prog)
+    must_send = summ.lift_must(lambda e: e["k"] == "call" and (e.get("callee") or "") == H + "ResponseWriter::send", "error-response-send")
+    must_reset = summ.lift_must(lambda e: e["k"] == "call" and strip_tmpl(e.get("callee") or "") in
+                                (H + "Private::ParserBase::reset", H + "Private::ParserImpl::reset"), "parser-reset")
     for hb in handlers:
-        evs = cfg.events_from_block(f, hb.id)
-        sends = [e for e in evs if e["k"] == "call" and (e.get("callee") or "") == H + "ResponseWriter::send"]
-        resets = [e for e in evs if e["k"] == "call" and strip_tmpl(e.get("callee") or "") in (H + "Private::ParserBase::reset", H + "Private::ParserImpl::reset")]
-        ck.ob("C03-R4", "onInput/catch(%s)-answers" % hb.label.get("type"), bool(sends) and bool(resets), "%s:%s" % (f.file, hb.label.get("l")), f,
-              "sends an error response and resets the parser")
+        # every way out of the handler has sent an answer and reset the parser (directly or through a helper that always does)
+        no_send = [x for x in cfg.exits_without(f, must_send, start_block=hb.id) if x.kind != "throw"]
+        no_reset = [x for x in cfg.exits_without(f, must_reset, start_block=hb.id) if x.kind != "throw"]
+        ck.ob("C03-R4", "onInput/catch(%s)-answers" % hb.label.get("type"), not no_send and not no_reset, "%s:%s" % (f.file, hb.label.get("l")), f,
+              "sends an error response and resets the parser" if not no_send and not no_reset else
+              "the handler can be left without %s" % ("sending an error response" if no_send else "resetting the parser"))
 
     # ---------------- R5 ----------------
     nl = 0
